@@ -1316,8 +1316,9 @@ impl Vm {
         self.push(Value::ObjClosure(closure.as_gc()));
 
         self.call_value(self.peek(0), 0)?;
-        let active_module_path = self.active_module.borrow().path;
-        self.init_built_in_globals(&active_module_path);
+        // Not the active module: if the call was refused (no frame left) and the error was handled,
+        // the active module is the handler's.
+        self.init_built_in_globals(&path);
         Ok(())
     }
 
